@@ -5,6 +5,7 @@ import (
 	"math"
 	"sync"
 	"sync/atomic"
+	"time"
 
 	"gonum.org/v1/gonum/mat"
 	"gonum.org/v1/gonum/optimize/functions"
@@ -307,6 +308,14 @@ type ledger struct {
 	sinceMajor int
 	maxSince   int
 	stuck      atomic.Bool
+	// sleepAt > 0: the sleepAt-th Func call blocks for sleepDur before it
+	// returns; from then on the elapsed time of the run is at least sleepDur
+	// (the only statement about time the monitor ever uses).
+	sleepAt      int
+	sleepDur     time.Duration
+	expired      atomic.Bool
+	startedAfter atomic.Int32 // Func calls started after the guaranteed expiry
+
 	// gfault: the first Grad call writes gval into component 0 (gkind == faultFirst).
 	gkind int
 	gval  float64
@@ -422,6 +431,9 @@ func (l *ledger) knownGrad(x, g []float64) {
 func (l *ledger) Func(x []float64) float64 {
 	l.enter()
 	defer l.leave()
+	if l.expired.Load() {
+		l.startedAfter.Add(1)
+	}
 	v := l.obj.f(x)
 	l.mu.Lock()
 	l.nF++
@@ -454,6 +466,10 @@ func (l *ledger) Func(x []float64) float64 {
 	}
 	l.tick()
 	l.mu.Unlock()
+	if l.sleepAt > 0 && n == l.sleepAt {
+		time.Sleep(l.sleepDur)
+		l.expired.Store(true)
+	}
 	return v
 }
 
